@@ -58,25 +58,26 @@ LEVEL = {
         note="Trusted: as C19; tree selection itself is C04's subject — here each voice's own get_parameter is the input.",
     ),
     "C05": dict(
-        text="Theorems (any ordered field, unbounded sizes): frames take the Gaussian of the state their duration assigns; boundary distances are the voiced "
-             "run lengths and a dynamic window is dropped exactly when its span touches an unvoiced frame or the utterance edge; fill puts NODATA exactly on "
-             "unvoiced frames; the banded LDL^T factorisation + forward/backward substitution, as coded, returns c with A c = r for the stored symmetric band "
-             "matrix for every length and band width when no pivot vanishes; normal equations with non-negative precisions give the likelihood maximiser. "
-             "calc_wuw_and_wum assembles exactly the band of W'U^-1 W and the vector W'U^-1 mu for the window matrix defined from scratch, given zero precision "
-             "where a window span leaves the frame range (which is what create arranges; the latent break of F8 is shown harmless there). Not a theorem: positivity "
-             "of the pivots (checked on every executed case) and that create's compacted voiced frames satisfy the edge hypothesis — both are covered on every run by "
-             "the oracle, which builds the normal-equation residual from the definition over absolute frames on the implementation's output; the model is "
-             "bit-identical to the implementation on all executed cases.",
+        text="Theorems (any ordered field, unbounded sizes), now closed end to end: frames take the Gaussian of the state their duration assigns; boundary distances "
+             "are the voiced run lengths and a dynamic window is dropped exactly when its span touches an unvoiced frame or the utterance edge; fill puts NODATA "
+             "exactly on unvoiced frames; calc_wuw_and_wum assembles exactly the band of W'U^-1 W and W'U^-1 mu for the window matrix defined from scratch (the "
+             "latent break of F8 is shown harmless); the observation sequences create builds satisfy the edge hypothesis by construction; the assembled matrix "
+             "is positive definite when static precisions are positive, so every LDL^T pivot is positive; the banded factorisation + substitutions as coded "
+             "return the solution of the dense normal equations; that solution maximises the Gaussian log-likelihood over ALL sequences. Capstone "
+             "create_total_and_ml: on every well-formed stream without GV the model of MlpgAdjust::create returns a trajectory whose every column, restricted "
+             "to the voiced frames, is the likelihood maximiser. What remains test-level is f64 rounding only: the oracle rebuilds the normal-equation residual "
+             "from the definition on the implementation's output (<= 1e-8 of scale) and the model is bit-identical to the implementation on all executed cases.",
         note="Trusted: Lean kernel; axioms ⊆ {propext, Classical.choice, Quot.sound}; model tied by differential testing (1e-9 relative, bit-identical in "
-             "practice); exact-arithmetic semantics; band assembly tested, not proved.",
+             "practice); exact-arithmetic semantics (floating-point rounding is measured, not proved).",
     ),
     "C07": dict(
         text="Theorems over the excitation model: a pulse fires exactly when counter+1 exceeds the period and has height sqrt(period); from any counter in (0,1] — "
              "which a start and every pulse leave — the next gap is floor(T0) or floor(T0)+1 and exactly T0 for integer T0, with the counter back in (0,1] "
              "(so every gap of a constant-F0 stretch is floor/ceil T0 and the mean power is 1); the period glides linearly; period = rate/exp(clamped log-F0); "
-             "LCG deviates in [0,1]. The defect found (first gap T0-1 for an integer period) is repaired in /repo (fix: 98d6dc9). Partial: the ring-buffer law "
-             "h*pulses + (delta-h)*noise and the whiteness/variance of the fixed noise sequence are decided by running the implementation (three runs per case) "
-             "and the bit-identical model, not by a theorem.",
+             "LCG deviates in [0,1]. The defect found (first gap T0-1 for an integer period) is repaired in /repo (fix: 98d6dc9). The mixing law is a theorem too: the rotating ring buffer "
+             "of Excitation::get emits, at each sample, the convolution of the queued contributions (pulse x h plus noise x (delta - h)) — for every buffer length "
+             "and history (ringRun_conv, excGet_is_ringStep). Partial only in the whiteness/variance of the one fixed pseudo-random noise sequence, which is a statistic "
+             "of a concrete sequence and is decided by running the implementation and the bit-identical model.",
         note="Trusted: Lean kernel; axioms ⊆ {propext, Classical.choice, Quot.sound}; model tied by differential testing (bit-identical); statistics of one fixed "
              "pseudo-random sequence are test-level by nature.",
     ),
@@ -90,9 +91,10 @@ LEVEL = {
     ),
     "C13": dict(
         text="Partial. Theorems: repaired lsp2lpc ignores the gain element (the pinned code used it as a frequency: fix 3dba546); gc2gc with equal gamma truncates; "
-             "ignorm inverts gnorm; MGLSA is the stage-fold cascade; gamma = -1/stage. The magnitude formula K/|A|^s (0.001 neper) and decay are decided on every run "
+             "ignorm inverts gnorm; MGLSA is the stage-fold cascade; gamma = -1/stage; lsp2lpc returns exactly the coefficients of (P(z)+Q(z))/2 with P, Q the products of the LSP "
+             "quadratic factors times (1 -/+ z^-1) (lsp2lpc_poly, every order, odd and even); well-separated frequencies pass the stability check unchanged. The magnitude formula K/|A|^s (0.001 neper) and decay are decided on every run "
              "by DFT of the implementation's pulse response against A(z) built by polynomial multiplication; model bit-identical to the implementation.",
-        note="Trusted: as C06; lsp2lpc = (P+Q)/2 is not yet a theorem.",
+        note="Trusted: as C06; the link from (P+Q)/2 to the magnitude response K/|A|^s involves exp/cos of real numbers and is checked numerically (DFT), not proved.",
     ),
     "C14": dict(
         text="Theorems: the post-filter's coefficient law (orders >= 2 times 1+beta, order 1 unchanged, order 0 shifted by half the log energy ratio minus "
@@ -125,7 +127,9 @@ LEVEL = {
     ),
     "C12": dict(
         text="Partial. Theorems: GV target = gv_mean x gv_weight with the switch expanded by durations and restricted to voiced frames; no eligible frame gives the "
-             "plain ML solution; a stream without GV ignores the weight. The 20 % and monotonicity clauses are empirical statements about five steps of a "
+             "plain ML solution; a stream without GV ignores the weight; conv_gv sets the variance over the eligible frames exactly to the target and keeps their mean and all other "
+             "frames; the per-state GV switch Models::gv produces is on exactly for labels matching none of the voice's GV-off patterns, wherever the label stands "
+             "(switch_is_outside_gv_off; the check recomputes eligibility from the voice file's patterns and the label text, not from the library's switch). The 20 % and monotonicity clauses are empirical statements about five steps of a "
              "Newton-like iteration and are decided on every run on the implementation (bundled + perturbed voices, >= 100 eligible frames), while the iteration's "
              "Lean model is tied bit-for-bit at stage level.",
         note="Trusted: as C11; no convergence analysis of the GV iteration.",
